@@ -395,7 +395,11 @@ func isSweepInsertion(c *wlCtor, u *ssa.MapUpdate) (bool, string) {
 		if !l.Blocks[g.If.Block()] || g.If.Block() == l.Header {
 			continue
 		}
-		lk, ok := stripNot(g.Cond).(*ssa.Lookup)
+		cond := stripNot(g.Cond)
+		if ex, isEx := cond.(*ssa.Extract); isEx {
+			cond = ex.Tuple // comma-ok form
+		}
+		lk, ok := cond.(*ssa.Lookup)
 		if !ok || lk.X != u.Map || lk.Index != u.Key {
 			return false, "insertion is conditional on " + core.Describe(g.Cond) + " (drops words other than duplicates)"
 		}
@@ -417,7 +421,11 @@ func stripNot(v ssa.Value) ssa.Value {
 // the enclosing range over m, dominated by t != k and by presence lookups.
 func isDocumentedDeletion(c *wlCtor, d *ssa.Call) (bool, string) {
 	t, ok := d.Call.Args[1].(*ssa.Call)
-	if !ok || core.CallName(t) != "strings.Title" {
+	targ, isT := ssa.Value(nil), false
+	if ok {
+		targ, isT = titleCallArg(t)
+	}
+	if !ok || !isT {
 		return false, "deleted key is not strings.Title(k): " + core.Describe(d.Call.Args[1])
 	}
 	l := core.InnermostLoop(c.loops, d.Block())
@@ -428,7 +436,7 @@ func isDocumentedDeletion(c *wlCtor, d *ssa.Call) (bool, string) {
 	if !ok || ri.Kind != "map" || ri.X != d.Call.Args[0] {
 		return false, "deletion is not inside a range over the same map"
 	}
-	k, ok := t.Call.Args[0].(*ssa.Extract)
+	k, ok := targ.(*ssa.Extract)
 	if !ok || k.Tuple != ssa.Value(ri.Next) || k.Index != 1 {
 		return false, "Title is not applied to the current range key"
 	}
@@ -517,6 +525,9 @@ func checkMapOrderIndependence(p *core.Program, r *core.Report, fn *ssa.Function
 				case *ssa.Call:
 					cn := core.CallName(x)
 					if strings.HasPrefix(cn, "builtin:") || cn == "strings.Title" || strings.HasPrefix(cn, "strings.") {
+						continue
+					}
+					if _, isT := titleCallArg(x); isT {
 						continue
 					}
 					other = append(other, "call "+cn+" at "+p.InstrPos(x))
